@@ -146,10 +146,10 @@ _counter = [0]
 
 
 def make_function(deftext, body='    return locals()', name='f', globs=None, cache_key=None,
-                  future_annotations=False, decorators=()):
+                  future_annotations=False, decorators=(), returns=None):
     """exec a ``def`` with a linecache entry so inspect.getsource works.  Cached per text when
     cache_key is given (the same function object is then shared between paths: never mutate it)."""
-    key = (cache_key, name, deftext, body, future_annotations, tuple(decorators)) if cache_key is not None else None
+    key = (cache_key, name, deftext, body, future_annotations, tuple(decorators), returns) if cache_key is not None else None
     if key is not None and key in _fn_cache:
         return _fn_cache[key]
     with sym.notrace():
@@ -159,7 +159,7 @@ def make_function(deftext, body='    return locals()', name='f', globs=None, cac
         if future_annotations:
             lines.append('from __future__ import annotations')
         lines.extend(decorators)
-        lines.append('def %s(%s):' % (name, deftext))
+        lines.append('def %s(%s)%s:' % (name, deftext, (' -> ' + returns) if returns else ''))
         lines.append(body)
         src = '\n'.join(lines) + '\n'
         linecache.cache[filename] = (len(src), None, src.splitlines(True), filename)
